@@ -219,8 +219,14 @@ func (r *Raft) onTakeSnapshot(t takeSnapshot) {
 		return
 	}
 	r.snapTakenCh = make(chan snapTaken, 1)
-	go func(index uint64, config Config) { // tracked by r.snapTakenCh
-		meta, err := doTakeSnapshot(r.fsm, index, config)
+
+	// enqueue the request from this goroutine: fsm.ch is fifo, so the
+	// snapshot is taken exactly at the current commitIndex, for which
+	// configs.Committed is the configuration in force
+	req := fsmSnapReq{task: newTask(), index: r.snaps.index + t.threshold}
+	r.fsm.ch <- req
+	go func(config Config) { // tracked by r.snapTakenCh
+		meta, err := doTakeSnapshot(r.fsm, req, config)
 		if trace {
 			println(r, "doTakeSnapshot err:", err)
 		}
@@ -229,13 +235,11 @@ func (r *Raft) onTakeSnapshot(t takeSnapshot) {
 			meta: meta,
 			err:  err,
 		}
-	}(r.snaps.index+t.threshold, r.configs.Committed)
+	}(r.configs.Committed)
 }
 
-func doTakeSnapshot(fsm *stateMachine, index uint64, config Config) (snapshotMeta, error) {
-	// get fsm state
-	req := fsmSnapReq{task: newTask(), index: index}
-	fsm.ch <- req
+func doTakeSnapshot(fsm *stateMachine, req fsmSnapReq, config Config) (snapshotMeta, error) {
+	// wait for fsm state
 	<-req.Done()
 	if req.Err() != nil {
 		return snapshotMeta{}, req.Err()
